@@ -27,8 +27,10 @@ BUDGET = {'quick': 16, 'thorough': 300}
 
 @st.composite
 def _case(draw, tier):
-    kind = draw(st.integers(0, 9))
-    if kind < 5:
+    kind = draw(st.integers(0, 10))
+    if kind == 10:
+        ms = draw(matspec.par_sensitive_spec())
+    elif kind < 5:
         ms = draw(matspec.mat_spec(max_side=3, max_patterns=3))
     elif kind < 9:
         ms = draw(matspec.pattern_family_spec())
@@ -142,23 +144,39 @@ def check_case(case):
 
     # --- cache keys of different settings ---
     how, a, b_ = case['mutate']
-    try:
-        ms2 = mutated(ms, how, a, b_)
-        _, refm2 = ref_map(ms2)
-        s1, _, _ = matspec.to_settings(ms)
-        s2, _, _ = matspec.to_settings(ms2)
-        s1n, _, _ = matspec.to_settings(ms, excl_as_nodes=True)
-        if refm2 != refm and s1.get_cache_key() == s2.get_cache_key():
-            res.add(viol('different_settings_share_cache_key', f'mutation {how}: {json.dumps(ms)[:300]} vs '
-                                                               f'{json.dumps(ms2)[:300]}', data=dict(d0, mutation=how)))
-        if s1.get_cache_key() != s1n.get_cache_key() and ms.get('excl'):
-            res.classes.append('key_depends_on_exclusion_form')
-    except refconn.TooLarge:
-        pass
-    except Exception as e:  # noqa
-        if exc_sig(e).endswith('@harness'):
-            raise
-        res.classes.append('mutated_settings_rejected')
+    for how_ in (how, 'par_default'):
+        try:
+            s1, _, _ = matspec.to_settings(ms)
+            if how_ == 'par_default':
+                # unset <-> explicitly the value that unset implies for the full problem (patterns re-derive the implied
+                # value, an explicit value stays)
+                implied = int(matspec.to_settings(dict(ms, par=None))[0].get_max_conn_parallel())
+                if ms.get('par') is None:
+                    ms2 = dict(json.loads(json.dumps(ms)), par=implied)
+                elif ms.get('par') == implied:
+                    ms2 = dict(json.loads(json.dumps(ms)), par=None)
+                else:
+                    continue
+            else:
+                ms2 = mutated(ms, how_, a, b_)
+            _, refm2 = ref_map(ms2)
+            s2, _, _ = matspec.to_settings(ms2)
+            if refm2 != refm:
+                res.classes.append(f'mutation_{how_}_changes_matrices')
+                if s1.get_cache_key() == s2.get_cache_key():
+                    res.add(viol('different_settings_share_cache_key', f'mutation {how_}: {json.dumps(ms)[:300]} vs '
+                                                                       f'{json.dumps(ms2)[:300]}',
+                                 data=dict(d0, mutation=how_)))
+            if how_ != 'par_default':
+                s1n, _, _ = matspec.to_settings(ms, excl_as_nodes=True)
+                if s1.get_cache_key() != s1n.get_cache_key() and ms.get('excl'):
+                    res.classes.append('key_depends_on_exclusion_form')
+        except refconn.TooLarge:
+            pass
+        except Exception as e:  # noqa
+            if exc_sig(e).endswith('@harness'):
+                raise
+            res.classes.append('mutated_settings_rejected')
 
     # --- selection ---
     EncoderSelector.encoding_timeout = timeout
